@@ -1100,6 +1100,11 @@ class Model:
                     if not len(d) == 2:
                         continue
 
+                    # An equation for one element of a vector says nothing
+                    # about the vector's other elements
+                    if not (eq.shape == d[0].shape == d[1].shape):
+                        continue
+
                     # Check with substitute, which is a more expensive operation
                     if ca.substitute(eq, d[0], d[1]).is_zero():
                         return d, False
